@@ -1,6 +1,7 @@
 package simrt
 
 import (
+	"context"
 	"fmt"
 	"io"
 	"os"
@@ -174,4 +175,49 @@ func RandRead(p []byte) (int, error) {
 		p[i] = byte(rnd())
 	}
 	return len(p), nil
+}
+
+// ---------------------------------------------------------------------------------------
+// timers ("buggify"): a deadline may expire although little real time has passed - the process
+// was descheduled, the VM paused, the machine is overloaded. Whether deadlines of this run expire
+// at once is drawn from the run's random seed, so the choice replays.
+
+func stalled() bool {
+	mu.Lock()
+	defer mu.Unlock()
+	if cur == nil {
+		return false
+	}
+	cur.WorldUse["timer"]++
+	if choice.Mix(cur.RandSeed, 0x5741)%3 == 0 {
+		cur.WorldUse["timer-expired-at-once"]++
+		return true
+	}
+	return false
+}
+
+// After is time.After under the run's stall policy.
+func After(d time.Duration) <-chan time.Time {
+	if stalled() {
+		ch := make(chan time.Time, 1)
+		ch <- Now()
+		return ch
+	}
+	return time.After(d)
+}
+
+// WithTimeout is context.WithTimeout under the run's stall policy.
+func WithTimeout(parent context.Context, d time.Duration) (context.Context, context.CancelFunc) {
+	if stalled() {
+		return context.WithDeadline(parent, time.Unix(0, 0))
+	}
+	return context.WithTimeout(parent, d)
+}
+
+// WithDeadline is context.WithDeadline under the run's stall policy.
+func WithDeadline(parent context.Context, t time.Time) (context.Context, context.CancelFunc) {
+	if stalled() {
+		return context.WithDeadline(parent, time.Unix(0, 0))
+	}
+	return context.WithDeadline(parent, t)
 }
